@@ -79,11 +79,25 @@ def rewrite : List String → String
     | _, _, _ => "bad-req"
   | _ => "bad-req"
 
+/-- `pnames <patch>` → `ok <old name | none> <new name | none>` | `err <message>` -/
+def pnames : List String → String
+  | [p] =>
+    match ofHex p with
+    | none => "bad-req"
+    | some text =>
+      match Patch.parse text with
+      | .ok pt =>
+        let sh : Option Bytes → String := fun o => match o with | some n => "s" ++ hexOrDash n | none => "none"
+        s!"ok {sh pt.old} {sh pt.new}"
+      | .error e => s!"err {hexOrDash (ofString e.msg)}"
+  | _ => "bad-req"
+
 def dispatch : List String → Option String
   | "applyundo" :: rest => some (applyundo rest)
   | "patchrt" :: rest => some (patchrt rest)
   | "papply" :: rest => some (papply rest)
   | "rewrite" :: rest => some (rewrite rest)
+  | "pnames" :: rest => some (pnames rest)
   | _ => none
 
 end OpsUndo
